@@ -26,7 +26,7 @@ EXTENDS Naturals, Sequences, FiniteSets, TLC
 CONSTANTS Msgs,          \* messages taken from the subscriber
           MutAckBeforePublish, MutPublishOnError, MutNoNackOnPubErr
 
-VARIABLES hp,       \* TRUE: handler with publisher; FALSE: no-publisher handler (fixed per behaviour)
+VARIABLES hp,       \* hp[m] TRUE: m is handled by a handler with publisher; FALSE: no-publisher handler (fixed per behaviour)
           ph,       \* ph[m] : "idle","emitted","handling","topublish","publishing","tosettle","done"
           settle,   \* settle[m] : "none" | "ack" | "nack"  (the Message state machine)
           res,      \* res[m] : chain result (meaningful from "topublish"/"tosettle" on)
@@ -41,7 +41,7 @@ Results == {[end |-> e, outs |-> o] : e \in Ends, o \in {<< >>, <<"o1">>, <<"o1"
 FirstWins(cur, k) == IF cur = "none" THEN k ELSE cur
 
 RInit ==
-    /\ hp \in BOOLEAN
+    /\ hp \in [Msgs -> BOOLEAN]
     /\ ph = [m \in Msgs |-> "idle"]
     /\ settle = [m \in Msgs |-> "none"]
     /\ res = [m \in Msgs |-> NoRes]
@@ -59,14 +59,14 @@ HSelf(m, k) == /\ ph[m] = "handling" /\ k \in {"ack", "nack"}
                /\ settle' = [settle EXCEPT ![m] = FirstWins(@, k)]
                /\ UNCHANGED <<ph, res, pubres, calls>>
 
-WillPublish(r) == /\ Len(r.outs) > 0
-                  /\ hp
+WillPublish(m, r) == /\ Len(r.outs) > 0
+                  /\ hp[m]
                   /\ (r.end = "ok" \/ (MutPublishOnError /\ r.end = "err"))
 
 HEnd(m, r) == /\ ph[m] = "handling"
               /\ res' = [res EXCEPT ![m] = r]
-              /\ ph' = [ph EXCEPT ![m] = IF WillPublish(r) THEN "topublish" ELSE "tosettle"]
-              /\ settle' = IF MutAckBeforePublish /\ WillPublish(r)
+              /\ ph' = [ph EXCEPT ![m] = IF WillPublish(m, r) THEN "topublish" ELSE "tosettle"]
+              /\ settle' = IF MutAckBeforePublish /\ WillPublish(m, r)
                              THEN [settle EXCEPT ![m] = FirstWins(@, "ack")] ELSE settle
               /\ UNCHANGED <<pubres, calls>>
 
@@ -91,8 +91,8 @@ PRet(m, o, sample) ==
 Outcome(m) ==
     IF /\ res[m].end = "ok"
        /\ \/ Len(res[m].outs) = 0
-          \/ (hp /\ pubres[m] = "accept")
-          \/ (MutNoNackOnPubErr /\ hp)
+          \/ (hp[m] /\ pubres[m] = "accept")
+          \/ (MutNoNackOnPubErr /\ hp[m])
     THEN "ack" ELSE "nack"
 
 Settle(m) == /\ ph[m] = "tosettle"
@@ -131,12 +131,12 @@ OnlyHandlerSettlesEarly ==
     [][\A m \in Msgs : (settle[m] = "none" /\ settle'[m] # "none") => (ph[m] = "handling" /\ ph'[m] = "handling") \/ (ph[m] = "tosettle")]_rvars
 AtMostOnePublish == \A m \in Msgs : calls[m] <= 1
 NoPublishAfterError ==
-    \A m \in Msgs : calls[m] > 0 => (res[m].end = "ok" /\ Len(res[m].outs) > 0 /\ hp)
+    \A m \in Msgs : calls[m] > 0 => (res[m].end = "ok" /\ Len(res[m].outs) > 0 /\ hp[m])
 DoneMeansSettled == \A m \in Msgs : ph[m] = "done" => settle[m] # "none"
 \* a failed chain or failed publish ends in Nack unless the handler settled first
 FailureNotAckedByRouter ==
     [][\A m \in Msgs :
          (ph'[m] = "done" /\ ph[m] = "tosettle" /\ settle[m] = "none"
-            /\ (res[m].end # "ok" \/ (Len(res[m].outs) > 0 /\ (~hp \/ pubres[m] # "accept"))))
+            /\ (res[m].end # "ok" \/ (Len(res[m].outs) > 0 /\ (~hp[m] \/ pubres[m] # "accept"))))
             => settle'[m] = "nack"]_rvars
 =============================================================================
